@@ -41,6 +41,9 @@ def stmtPool : Array String := #[sensitiveStmt, sensitiveStmt, sensitiveStmt, se
   "A(a) {I(b) [XOR] I(c)} Bdir(d)",
   "A(x", "plain words without components", "A(a [AND] b [OR] c)", "A(one) A(one)",
   "A,p(only a property)", "A(<!--zq5) I(&amp; &lt;)",
+  -- characters with a meaning in URL encoding (GET parameters must arrive as typed)
+  "A(operators) D(must) I(pay) Bdir(licence fee + processing surcharge) Cex(within 30 days & 100%25)",
+  "A(a+b) I(c%20d) Bdir(e&f=g)",
   -- rejected statements whose error message quotes user text
   "A(actor) I(act) Bdir((<zq1> facilities [AND] farms [OR] \"zq3onload= shops))",
   "A(actor) I(act) D{A(</textarea><zq2) I(approves)}",
@@ -49,8 +52,8 @@ def stmtPool : Array String := #[sensitiveStmt, sensitiveStmt, sensitiveStmt, se
   "A(actor) I(act) Cac{A(a) I(b)} [AND] Cac{A(<zq1>) I(d)} [XOR] Cac{A(e) I('zq4;alert( f)}",
   "A(actor) I(act) {I(<zq1>) [XOR] I(c)} {Bdir(</script><zq6) [OR] Bdir(e)}", "A(actor) I(()) Bdir(<zq1> [AND] )"]
 
-def origPool : Array String := #["", "The original statement.", "orig </textarea><zq2 text", "a|b\nc \"q\" <zq1>", "Ünïcode ö"]
-def idPool : Array String := #["", "1", "123", "7.a", "\"zq3onload=", "<zq1>"]
+def origPool : Array String := #["", "The original statement.", "orig </textarea><zq2 text", "a|b\nc \"q\" <zq1>", "Ünïcode ö", "fee + surcharge = 100% & more"]
+def idPool : Array String := #["", "1", "123", "7.a", "\"zq3onload=", "<zq1>", "Art5+6", "a%2Bb c"]
 def boolPost : Array String := #["", "on", "on", "off", "true"]
 def boolGet : Array String := #["", "", "t", "true", "1", "f", "false", "0", "on", "yes"]
 def outTypes : Array String := #["Google Sheets", "CSV format", "", "bogus"]
